@@ -393,7 +393,7 @@ def run(tier, seed, workers):
     thorough = tier == 'thorough'
     alpha_full8 = 6 if thorough else 5         # exhaustive up to this length, 8 option combos
     alpha_full = 7 if thorough else 6          # exhaustive up to this length (fewer combos beyond)
-    beyond = 2 if thorough else 4              # option combinations beyond alpha_full8
+    beyond = 2                                 # option combinations beyond alpha_full8
     alpha_slice = 8 if thorough else None      # one seed-selected 1/SLICES slice of this length
     SLICES = 12
     mut_maxlen = 10 ** 9 if thorough else 40
